@@ -159,7 +159,7 @@ func TestC14_WatchFaults(t *testing.T) {
 	rapid.Check(t, func(t *rapid.T) {
 		mkPlan := func() sessPlan {
 			p := noPlan()
-			p.status, p.bookmark, p.unknown = map[int]bool{}, map[int]bool{}, map[int]bool{}
+			p.status, p.bookmark, p.unknown, p.errobj = map[int]bool{}, map[int]bool{}, map[int]bool{}, map[int]bool{}
 			for i := 0; i < 40; i++ {
 				switch rapid.IntRange(0, 9).Draw(t, "frame") {
 				case 0:
@@ -168,6 +168,8 @@ func TestC14_WatchFaults(t *testing.T) {
 					p.bookmark[i] = true
 				case 2:
 					p.unknown[i] = true
+				case 3:
+					p.errobj[i] = true
 				}
 			}
 			return p
